@@ -21,6 +21,7 @@ import PyAbel.Model.Recursions
 import PyAbel.Model.Profiles
 import PyAbel.Model.RbasexCache
 import PyAbel.Model.BasexCache
+import PyAbel.Model.RbasexBasis
 import PyAbel.Gen.Tables
 open PyAbel PyAbel.Proto
 
@@ -392,6 +393,12 @@ def handle (toks : List String) : String :=
   -- rbxcache op op …   →  history of rbasex's in-memory transform caches
   | "rbxcache" :: rest => rbxHistory rest
   | "bxcache" :: rest => bxHistory rest
+  -- rbxbasis Rmax n   →  the (Rmax+1)² matrix P[R, r] = p_{R;n}(r) of rbasex._bs_rbasex for the angular order n
+  | ["rbxbasis", rmax, n] =>
+    match rmax.toNat?, n.toNat? with
+    | some rmax, some n =>
+      s!"ok {rmax + 1} {rmax + 1} " ++ showFloats ((List.range (rmax + 1)).flatMap fun R => (List.range (rmax + 1)).map fun r => (RbxBasis.P n R r : Float))
+    | _, _ => "bad-op"
   -- hansen forward hold1 dr <row…>   →  hansenlaw_transform of one row (constants from Gen/Tables)
   | "hansen" :: fwd :: hold :: dr :: rest =>
     match parseBool fwd, parseBool hold, parseFloats [dr], parseFloats rest with
